@@ -29,6 +29,9 @@ type c07Scenario struct {
 	TrackedJoin bool   `json:"tracked_join"` // with tracking: join a channel with other users during the session
 	RateLimit   bool   `json:"rate_limit"`   // flood control ON (each case costs seconds)
 	PingFreqMS  int    `json:"ping_freq_ms"`
+	// IdleMS: before anything ends the connection the server says nothing for this long (the client's own
+	// PINGs go unanswered): silence is not "something that ends it", however small Timeout and PingFreq are
+	IdleMS      int    `json:"idle_ms,omitempty"`
 	TimeoutMS   int    `json:"timeout_ms"` // Config().Timeout lowered on the live client (0: default); the scripted server never answers the client's PINGs
 	Welcome     string `json:"welcome"` // none, same, new
 	Cycles      int    `json:"cycles"`
@@ -55,6 +58,7 @@ func genC07(t *rapid.T) *c07Scenario {
 		RateLimit:      rapid.IntRange(0, envInt("VERIF_C07_RL_ONE_IN", 50)-1).Draw(t, "rate_limit") == envInt("VERIF_C07_RL_ONE_IN", 50)/2+3, // interior value: rapid favours the ends of a range
 		PingFreqMS:     rapid.SampledFrom([]int{0, 0, 3, 180000}).Draw(t, "pingfreq"),
 		TimeoutMS:      rapid.SampledFrom([]int{0, 0, 5}).Draw(t, "timeout_ms"),
+		IdleMS:         rapid.SampledFrom([]int{0, 0, 0, 0, 30}).Draw(t, "idle_ms"),
 		Welcome:        rapid.SampledFrom([]string{"none", "same", "same", "new"}).Draw(t, "welcome"),
 		Cycles:         rapid.SampledFrom([]int{1, 1, 2, 2, 3, 5}).Draw(t, "cycles"),
 		InBacklog:      rapid.SampledFrom([]int{0, 5, 30, 70, 120, 400}).Draw(t, "in_backlog"),
@@ -346,6 +350,13 @@ func runC07(sc *c07Scenario) *Violation {
 				reconnCh <- reconn{connect()}
 			}()
 		}
+		if sc.IdleMS > 0 {
+			before := discCount.Load()
+			time.Sleep(time.Duration(sc.IdleMS) * time.Millisecond)
+			if !tc.C.Connected() || discCount.Load() != before {
+				return fail("cycle %d: the connection ended during %d ms in which the server merely said nothing (PingFreq %d ms, Timeout %d ms): nothing had ended it", cycle, sc.IdleMS, sc.PingFreqMS, sc.TimeoutMS)
+			}
+		}
 		closeRet := make(chan error, 4)
 		cause := sc.Cause
 		if cause == "close3" && cycle+1 < sc.Cycles {
@@ -569,6 +580,7 @@ var c07Regress = []*c07Scenario{
 	{Cycles: 1, InBacklog: 100, InSegments: 1, ServerReads: "fast", Cause: "close", Welcome: "none"},                                    // close-single-drain (inbound)
 	{Cycles: 1, InBacklog: 30, InSegments: 1, HandlerEmits: 10, ServerReads: "none", Cause: "close", Welcome: "none"},                   // close-single-drain (outbound, handler blocked)
 	{Cycles: 2, ReconnectFrom: "handler", ServerReads: "fast", Cause: "eof", Welcome: "none"},                                           // late-close-kills-successor
+	{Cycles: 2, ReconnectFrom: "goroutine", ServerReads: "fast", Cause: "close", Welcome: "same", PingFreqMS: 3, TimeoutMS: 5, IdleMS: 40}, // silent-server
 	{Cycles: 3, ReconnectFrom: "goroutine", ServerReads: "fast", Cause: "close", Welcome: "none", PingFreqMS: 3},                        // late-close-kills-successor
 	{Cycles: 1, InBacklog: 40, InSegments: 1, HandlerEmits: 10, ServerReads: "none", Cause: "cancel", Welcome: "none"},                  // cancel-while-blocked
 	{Cycles: 1, InBacklog: 70, InSegments: 3, HandlerAsks: true, HandlerSlowUS: 50, ServerReads: "fast", Cause: "eof", Welcome: "same"}, // connected-in-handler-during-close
